@@ -8,6 +8,7 @@ import (
 	"sort"
 	"strings"
 	"sync"
+	"sync/atomic"
 	"time"
 
 	"github.com/weedbox/pokerface"
@@ -115,9 +116,10 @@ type HStep struct {
 	Settle  []HStat  `json:"settle_stats,omitempty"`
 	Closed  bool     `json:"hand_closed"`
 	Wedged  bool     `json:"wedged"`
-	Ret     int64    `json:"returned,omitempty"` // value returned by a deadline extension
-	ResultN int      `json:"result_entries"`     // at settlement: entries of the hand's result
-	HandN   int      `json:"hand_participants"`  // at settlement: participants of the hand
+	ExtInj  bool     `json:"extension_injected,omitempty"` // a deadline extension was served inside the engine's Next step of this attempt
+	Ret     int64    `json:"returned,omitempty"`           // value returned by a deadline extension
+	ResultN int      `json:"result_entries"`               // at settlement: entries of the hand's result
+	HandN   int      `json:"hand_participants"`            // at settlement: participants of the hand
 }
 
 type HTwin struct {
@@ -140,8 +142,12 @@ type HCase struct {
 	AutoAt      int        `json:"auto_at,omitempty"`    // ... at its k-th opportunity
 	FirstDealer int        `json:"first_dealer,omitempty"`
 	WantDealer  int        `json:"-"`
-	Withhold    bool       `json:"withhold,omitempty"`        // one participant never answers one request: the 17 s timeout must move the hand on
-	Started     bool       `json:"started_backend,omitempty"` // the backend names the betting event "Started"
+	Withhold    bool       `json:"withhold,omitempty"`         // one participant never answers one request: the 17 s timeout must move the hand on
+	Started     bool       `json:"started_backend,omitempty"`  // the backend names the betting event "Started"
+	WithholdAt  string     `json:"withhold_at,omitempty"`      // ready | ante | blinds
+	StateOnFail bool       `json:"state_with_error,omitempty"` // an injected backend failure returns the state the engine computed together with the error (a lost reply)
+	LateExtPct  int        `json:"late_extend_pct,omitempty"`  // chance that a deadline extension is served right after a betting round closed (inside Next)
+	PausePct    int        `json:"pause_pct,omitempty"`        // chance of letting 1.1 s pass before a legal action
 	IllegalPct  int        `json:"illegal_pct"`
 	ExtendPct   int        `json:"extend_pct"`
 	Hands       int        `json:"hands"`
@@ -151,9 +157,10 @@ type HCase struct {
 }
 
 type handRun struct {
-	d      *Drv
-	gids   map[string]int
-	hashes map[string]int
+	injected *int32
+	d        *Drv
+	gids     map[string]int
+	hashes   map[string]int
 }
 
 func (hr *handRun) intern(m map[string]int, s string) int {
@@ -318,6 +325,65 @@ func (hr *handRun) awaitGroup(s *HStep) {
 	}
 }
 
+func idxOfPlayer(gs *pokerface.GameState, d *Drv, player int) int {
+	for gp := range gs.Players {
+		if idOf(d.playerIDAt(gp)) == player {
+			return gp
+		}
+	}
+	return -1
+}
+
+// everybody but the first of calls answers; the hand must stay where it is until the response timeout
+// (17 s) moves it on by itself
+func (hr *handRun) withhold(c *HCase, calls []HCall, event string) {
+	d := hr.d
+	if len(calls) == 0 {
+		return
+	}
+	for _, call := range calls[1:] {
+		hr.attempt(c, call, true)
+	}
+	w := calls[0]
+	w.Why = "withheld"
+	s := HStep{Call: w, Pre: hr.snap()}
+	d.takeEvents()
+	d.be.mu.Lock()
+	nbe := len(d.be.calls)
+	d.be.mu.Unlock()
+	s.Now0 = time.Now().Unix()
+	s.Post = hr.snap()
+	for k := 0; k < 230; k++ {
+		time.Sleep(100 * time.Millisecond)
+		if g := d.te.GetTable().State.GameState; g == nil || g.Status.CurrentEvent != event {
+			break
+		}
+	}
+	d.Quiesce(quiesceLimit)
+	s.Now1 = time.Now().Unix()
+	s.Now2 = s.Now1
+	s.Quiet = hr.snap()
+	for _, ev := range d.takeEvents() {
+		if ev.Kind == "updated" && ev.Event != "" {
+			s.Seen = append(s.Seen, ev.Event)
+			s.SeenEnd = append(s.SeenEnd, ev.Abs.EndAt)
+		}
+	}
+	d.be.mu.Lock()
+	for _, bc := range d.be.calls[nbe:] {
+		k := bc.Kind
+		if bc.Err {
+			k += "!"
+		}
+		s.BE = append(s.BE, k)
+	}
+	d.be.mu.Unlock()
+	c.Steps = append(c.Steps, s)
+	if s.Quiet.Event == event {
+		c.Note = "stuck after a withheld answer"
+	}
+}
+
 // one attempt = one observation
 func (hr *handRun) attempt(c *HCase, call HCall, await bool) *HStep {
 	d := hr.d
@@ -328,7 +394,9 @@ func (hr *handRun) attempt(c *HCase, call HCall, await bool) *HStep {
 	if call.FailBE {
 		d.be.failAt[nbe] = true
 	}
-	d.be.failKind = call.FailAuto
+	if call.FailAuto != "" {
+		d.be.failKind = call.FailAuto
+	}
 	d.be.mu.Unlock()
 	s.Now0 = time.Now().Unix()
 	err := hr.doCall(call)
@@ -348,6 +416,9 @@ func (hr *handRun) attempt(c *HCase, call HCall, await bool) *HStep {
 	}
 	s.Quiet = hr.snap()
 	s.Now2 = time.Now().Unix()
+	if hr.injected != nil && atomic.SwapInt32(hr.injected, 0) == 1 {
+		s.ExtInj = true
+	}
 	for _, ev := range d.takeEvents() {
 		switch ev.Kind {
 		case "action":
@@ -389,7 +460,9 @@ func (hr *handRun) attempt(c *HCase, call HCall, await bool) *HStep {
 		s.BE = append(s.BE, k)
 	}
 	delete(d.be.failAt, nbe)
-	d.be.failKind = ""
+	if d.be.failKind != "Next" { // a failing Next stays armed until a betting round closes
+		d.be.failKind = ""
+	}
 	d.be.mu.Unlock()
 	c.Steps = append(c.Steps, s)
 	return &c.Steps[len(c.Steps)-1]
@@ -409,6 +482,17 @@ func runHandCase(c *HCase) {
 	}
 	d.keepTables = true
 	hr := &handRun{d: d, gids: map[string]int{}, hashes: map[string]int{}}
+	// a time-bank click that reaches the table just after the action that closed the betting round
+	lateRNG := r.Fork(91)
+	var injected int32
+	d.be.inNext = func() {
+		if c.LateExtPct > 0 && lateRNG.Chance(c.LateExtPct, 100) {
+			d.te.PlayerExtendActionDeadline(pid(1), 5+lateRNG.Intn(20))
+			atomic.StoreInt32(&injected, 1)
+		}
+	}
+	hr.injected = &injected
+	d.be.stateOnFail = c.StateOnFail
 	// reproducible decks: replace the shuffled deck of every new hand by a seeded permutation
 	deckRNG := r.Fork(77)
 	d.be.fixDeck = func(gs *pokerface.GameState) {
@@ -446,6 +530,11 @@ func runHandCase(c *HCase) {
 		c.Note = "first hand did not open"
 		return
 	}
+	// a seated player who never joined is part of the first set-up and never signals: the gate's own 2 s timeout opens the hand
+	for w := 0; w < 40 && d.te.GetTable().State.Status != pt.TableStateStatus_TableGamePlaying; w++ {
+		time.Sleep(100 * time.Millisecond)
+	}
+	d.Quiesce(quiesceLimit)
 	// the first dealer is drawn by the seat manager (math/rand): a twin run is only comparable when it drew the same one
 	dealer := 0
 	if g := d.te.GetTable().State.GameState; g != nil {
@@ -476,7 +565,7 @@ func runHandCase(c *HCase) {
 	}
 	stuck := func(s *HStep) bool {
 		for _, b := range s.BE {
-			if strings.HasSuffix(b, "!") && s.Call.FailAuto != "" {
+			if b == "ReadyForAll!" || b == "PayAnte!" || b == "PayBlinds!" || b == "Next!" {
 				c.Note = "auto-fault"
 				return true
 			}
@@ -503,6 +592,7 @@ func runHandCase(c *HCase) {
 			continue
 		}
 		if st.Status != pt.TableStateStatus_TableGamePlaying || st.GameState == nil {
+			c.Note = "table is " + string(st.Status) + " when a hand should be in progress"
 			break
 		}
 		gs := st.GameState
@@ -567,45 +657,13 @@ func runHandCase(c *HCase) {
 		case "ReadyRequested":
 			order := r.Perm(len(gs.Players))
 			fa := autoNow("ReadyForAll")
-			if c.Withhold && !withheld {
-				// everybody but one answers; the hand must stay where it is until the response timeout moves it on
+			if c.Withhold && !withheld && c.WithholdAt == "ready" {
 				withheld = true
-				for _, gp := range order[1:] {
-					hr.attempt(c, HCall{Player: idOf(d.playerIDAt(gp)), Action: "ready", Why: "group"}, true)
+				var calls []HCall
+				for _, gp := range order {
+					calls = append(calls, HCall{Player: idOf(d.playerIDAt(gp)), Action: "ready", Why: "group"})
 				}
-				s := HStep{Call: HCall{Player: idOf(d.playerIDAt(order[0])), Action: "ready", Why: "withheld"}, Pre: hr.snap()}
-				d.takeEvents()
-				d.be.mu.Lock()
-				nbe := len(d.be.calls)
-				d.be.mu.Unlock()
-				s.Now0 = time.Now().Unix()
-				s.Post = hr.snap()
-				for w := 0; w < 220; w++ {
-					time.Sleep(100 * time.Millisecond)
-					if g := d.te.GetTable().State.GameState; g == nil || g.Status.CurrentEvent != "ReadyRequested" {
-						break
-					}
-				}
-				d.Quiesce(quiesceLimit)
-				s.Now1 = time.Now().Unix()
-				s.Now2 = s.Now1
-				s.Quiet = hr.snap()
-				for _, ev := range d.takeEvents() {
-					if ev.Kind == "updated" && ev.Event != "" {
-						s.Seen = append(s.Seen, ev.Event)
-						s.SeenEnd = append(s.SeenEnd, ev.Abs.EndAt)
-					}
-				}
-				d.be.mu.Lock()
-				for _, bc := range d.be.calls[nbe:] {
-					k := bc.Kind
-					if bc.Err {
-						k += "!"
-					}
-					s.BE = append(s.BE, k)
-				}
-				d.be.mu.Unlock()
-				c.Steps = append(c.Steps, s)
+				hr.withhold(c, calls, "ReadyRequested")
 				continue
 			}
 			for k, gp := range order {
@@ -624,6 +682,15 @@ func runHandCase(c *HCase) {
 		case "AnteRequested":
 			fa := autoNow("PayAnte")
 			order := r.Perm(len(gs.Players))
+			if c.Withhold && !withheld && c.WithholdAt == "ante" {
+				withheld = true
+				var calls []HCall
+				for _, gp := range order {
+					calls = append(calls, HCall{Player: idOf(d.playerIDAt(gp)), Action: "pay", Chips: gs.Meta.Ante, Why: "group"})
+				}
+				hr.withhold(c, calls, "AnteRequested")
+				continue
+			}
 			for k, gp := range order {
 				call := HCall{Player: idOf(d.playerIDAt(gp)), Action: "pay", Chips: gs.Meta.Ante, Why: "group"}
 				if k == len(order)-1 {
@@ -635,6 +702,33 @@ func runHandCase(c *HCase) {
 			}
 		case "BlindsRequested":
 			fa := autoNow("PayBlinds")
+			if c.Withhold && !withheld && c.WithholdAt == "blinds" {
+				withheld = true
+				var calls []HCall
+				for _, gp := range r.Perm(len(gs.Players)) {
+					if gs.HasAction(gp, "pay") {
+						amt := gs.Meta.Blind.Dealer
+						if gs.HasPosition(gp, "bb") {
+							amt = gs.Meta.Blind.BB
+						} else if gs.HasPosition(gp, "sb") {
+							amt = gs.Meta.Blind.SB
+						}
+						calls = append(calls, HCall{Player: idOf(d.playerIDAt(gp)), Action: "pay", Chips: amt, Why: "group"})
+					}
+				}
+				// withhold the highest hand index now and then (the answers are keyed by hand index)
+				if len(calls) > 1 && r.Chance(1, 2) {
+					hi := 0
+					for k := range calls {
+						if idxOfPlayer(gs, d, calls[k].Player) > idxOfPlayer(gs, d, calls[hi].Player) {
+							hi = k
+						}
+					}
+					calls[0], calls[hi] = calls[hi], calls[0]
+				}
+				hr.withhold(c, calls, "BlindsRequested")
+				continue
+			}
 			for _, gp := range r.Perm(len(gs.Players)) {
 				if !gs.HasAction(gp, "pay") {
 					continue
@@ -670,11 +764,10 @@ func runHandCase(c *HCase) {
 			for k := 0; k < 3 && fr.Chance(c.ExtendPct, 100); k++ {
 				hr.extend(c, call.Player, 1+fr.Intn(40))
 			}
-			call.FailAuto = autoNow("Next")
-			if call.FailAuto != "" && fr.Chance(1, 2) {
-				call.FailAuto = "" // not every opportunity: Next only follows an action that closes the round
-				autoSeen--
+			if c.PausePct > 0 && fr.Chance(c.PausePct, 100) {
+				time.Sleep(1100 * time.Millisecond)
 			}
+			call.FailAuto = autoNow("Next") // armed from the k-th turn on: fails the Next that follows the round's last action
 			s := hr.attempt(c, call, true)
 			if stuck(s) {
 				return
@@ -712,9 +805,16 @@ func genHand(root *RNG, i int, seed uint64) HCase {
 		c.Dealer = 5
 	}
 	c.ExtendPct = []int{0, 10, 30}[r.Intn(3)]
+	if r.Chance(1, 4) {
+		c.PausePct = 6
+	}
+	if r.Chance(1, 4) {
+		c.LateExtPct = 50
+	}
 	switch r.Intn(4) {
 	case 0:
 		c.FaultPct = 10 + r.Intn(30)
+		c.StateOnFail = r.Chance(1, 2)
 	case 1:
 		c.AutoFault = []string{"ReadyForAll", "PayAnte", "PayBlinds", "Next"}[r.Intn(4)]
 		if c.AutoFault == "PayAnte" && c.Ante == 0 {
@@ -747,10 +847,18 @@ func runHand(opt Opts) error {
 			}
 			if opt.Mode == "withhold" {
 				c.Withhold, c.Hands, c.FaultPct, c.AutoFault = true, 1, 0, ""
+				c.WithholdAt = []string{"ready", "ante", "blinds", "blinds"}[i%4]
+				if c.WithholdAt == "ante" && c.Ante == 0 {
+					c.Ante = 2
+				}
+				if c.WithholdAt == "blinds" && c.N < 3 && c.Max >= 3 {
+					c.N = 3
+				}
 			}
 			if opt.Mode == "faults" {
 				c.FaultPct = 25
 				c.IllegalPct = 5
+				c.StateOnFail = i%2 == 0
 			}
 			cases = append(cases, c)
 		}
@@ -951,9 +1059,9 @@ func (s HStep) Coq() string {
 		seen[i] = fmt.Sprintf("(%s, %s)", coqEv(e), coqZi(int(s.SeenEnd[i])))
 	}
 	c := s.Call
-	return fmt.Sprintf("mkstep (mkcall %d %s %s %s %v) %s %v %s %s [%s] %d [%s] %s %s %s [%s] %v %v %s %s %d %d", c.Player, coqAct(c.Action), coqZi(int(c.Chips)), coqWhy(c.Why), c.FailBE,
+	return fmt.Sprintf("mkstep (mkcall %d %s %s %s %v) %s %v %s %s [%s] %d [%s] %s %s %s [%s] %v %v %s %s %d %d %v", c.Player, coqAct(c.Action), coqZi(int(c.Chips)), coqWhy(c.Why), c.FailBE,
 		s.Pre.Coq(), s.Ok, s.Post.Coq(), s.Quiet.Coq(), strings.Join(acts, "; "), s.Errs, strings.Join(be, "; "),
-		coqZi(int(s.Now0)), coqZi(int(s.Now1)), coqZi(int(s.Now2)), strings.Join(seen, "; "), s.Closed, s.Wedged, coqStats(s.Settle), coqZi(int(s.Ret)), s.ResultN, s.HandN)
+		coqZi(int(s.Now0)), coqZi(int(s.Now1)), coqZi(int(s.Now2)), strings.Join(seen, "; "), s.Closed, s.Wedged, coqStats(s.Settle), coqZi(int(s.Ret)), s.ResultN, s.HandN, s.ExtInj)
 }
 
 func coqFinal(xs [][2]int64) string {
